@@ -49,6 +49,7 @@ type evSub struct {
 	got         []*resource.CollectionChange
 	copies      []resource.CollectionChange // field-by-field copy taken by the consumer the moment it received the event
 	since       int                         // number of successful writes before it subscribed
+	expected    int                         // include subscribers: events its filter lets through so far (the harness's own count)
 }
 
 func (s *evSub) kind() string {
@@ -224,10 +225,14 @@ func runEventSeq(es evSeq, tie *lib.Tie, mon *lib.Monitor, drv *lib.Driver) {
 		open(true, mask, []string{"stalled", "stalled", "slow", "drain"}[r.Intn(4)], false)
 		lines, code = append(lines, fmt.Sprintf("ev sub 1 %d", b2i(mask))), append(code, "ok")
 	}
-	// subscribers with an include filter (monitor only: the model has no include stage, and they are invisible to the others)
+	// subscribers with an include filter; the backpressure ones are part of the tie (`ev subi`), lossy ones are monitor only
+	// (the model has no include stage behind the merger) and invisible to the others
 	for i, n := 0, r.Intn(3); i < n; i++ {
-		lossy := r.Intn(3) == 0
-		open(lossy, r.Intn(3) == 0, "drain", true)
+		lossy, mask := r.Intn(3) == 0, r.Intn(3) == 0
+		open(lossy, mask, "drain", true)
+		if !lossy {
+			lines, code = append(lines, fmt.Sprintf("ev subi %d", b2i(mask))), append(code, "ok")
+		}
 	}
 	var wrong [][3]string
 	state := map[int]int{} // the harness's own view of the collection: id -> token (plain map, independent of model and code)
@@ -288,11 +293,27 @@ func runEventSeq(es evSeq, tie *lib.Tie, mon *lib.Monitor, drv *lib.Driver) {
 		writes++
 		// every backpressure subscriber receives exactly one event per write (no include, no equivalence)
 		parts := []string{"ok"}
+		// the include filter's verdict on this write, by the harness's own rule (the token is even)
+		wf := strings.Fields(line) // ev send KIND id old new
+		even := func(t string) bool {
+			n := 1
+			fmt.Sscan(t, &n)
+			return t != "-" && n%2 == 0
+		}
+		inclPass := even(wf[4]) || even(wf[5])
 		for i, s := range subs {
-			if s.lossy || s.incl {
+			if s.lossy {
 				continue
 			}
 			want := writes - s.since
+			if s.incl {
+				if !inclPass {
+					parts = append(parts, "-")
+					continue
+				}
+				s.expected++
+				want = s.expected
+			}
 			deadline := time.Now().Add(3 * time.Second)
 			for s.count() < want && time.Now().Before(deadline) {
 				runtime.Gosched()
@@ -319,7 +340,7 @@ func runEventSeq(es evSeq, tie *lib.Tie, mon *lib.Monitor, drv *lib.Driver) {
 					}
 					return t
 				}
-				if want := fmt.Sprintf("%s,%s,%s,%s", f[2], f[3], exp(f[4]), exp(f[5])); showEvent(e) != want {
+				if want := fmt.Sprintf("%s,%s,%s,%s", f[2], f[3], exp(f[4]), exp(f[5])); !s.incl && showEvent(e) != want {
 					wrong = append(wrong, [3]string{fmt.Sprintf("Collection.Pull#%d(%s)", i, s.kind()), want, showEvent(e)})
 				}
 			}
